@@ -273,7 +273,8 @@ fn utf8_multibyte(n: usize) -> BS<Vec<u8>> {
 /// OP_RETURN payloads by class. Never contains a byte sequence that looks like a log line prefix.
 pub fn opreturn_payload(tier: Tier) -> BS<(PayClass, Vec<u8>)> {
     let maxlen = if tier == Tier::Thorough { 5000usize } else { 700 };
-    let alen = weighted(vec![(6, (1usize..=75).boxed()), (3, (76usize..=80).boxed()), (2, (81usize..=255).boxed()), (1, Just(255usize).boxed()), (1, Just(256usize).boxed()), (1, (257usize..=maxlen).boxed())]);
+    // lengths incl. payloads that make the whole script longer than 10 000 bytes (Bitcoin's MAX_SCRIPT_SIZE) and than 64 KiB
+    let alen = weighted(vec![(60, (1usize..=75).boxed()), (30, (76usize..=80).boxed()), (20, (81usize..=255).boxed()), (10, Just(255usize).boxed()), (10, Just(256usize).boxed()), (10, (257usize..=maxlen).boxed()), (3, (9_990usize..=10_010).boxed()), (1, Just(12_000usize).boxed()), (1, Just(70_000usize).boxed())]);
     let ascii = alen.clone().prop_flat_map(|n| vec(0x20u8..0x7f, n)).prop_map(|v| (PayClass::Ascii, v));
     let multi = (1usize..120).prop_flat_map(utf8_multibyte).prop_map(|v| (PayClass::MultiByte, v));
     let invalid = alen.prop_flat_map(|n| vec(any::<u8>(), n)).prop_map(|mut v| {
@@ -881,5 +882,8 @@ pub fn wide_base() -> BS<u64> {
         1 => prop_oneof![Just(209_990u64), Just(419_995u64), Just(629_998u64), Just(120u64), Just(16_505u64), Just(2_113_660u64)],
         // heights are an `int` in Bitcoin Core: power-of-two neighbourhoods, the 4/5-byte VarInt boundary (270 549 120), up to 2^31 - 1
         1 => prop_oneof![Just(65_530u64), Just((1u64 << 24) - 5), Just(270_549_115u64), Just(270_549_120u64), Just((1u64 << 31) - 70), 270_549_120u64..(1u64 << 31) - 70],
+        // beyond what a node can store (nHeight is an int) but inside what the index format and the tool's u64 hold:
+        // around 2^32, 2^40, the first height with 2^32 halvings, 2^63
+        1 => prop_oneof![Just((1u64 << 32) - 30), Just((1u64 << 32) + 5), Just(1u64 << 40), Just(210_000u64 * (1u64 << 32) - 20), Just((1u64 << 63) - 100)],
     ].boxed()
 }
